@@ -51,11 +51,15 @@ func buildOverlay(repo string, m Mutant) (map[string][]byte, string) {
 		p := filepath.Join(repo, e.File)
 		src, ok := ov[p]
 		if !ok {
-			b, err := os.ReadFile(p)
-			if err != nil {
-				return nil, "anchor-missing"
+			if bb, ok := baseOverlay[p]; ok {
+				src = bb
+			} else {
+				b, err := os.ReadFile(p)
+				if err != nil {
+					return nil, "anchor-missing"
+				}
+				src = b
 			}
-			src = b
 		}
 		s := string(src)
 		n := strings.Count(s, e.Old)
